@@ -5,6 +5,7 @@ mod c14;
 mod c15txt;
 mod c20;
 mod histories;
+mod sock;
 mod world;
 
 fn main() {
